@@ -347,6 +347,33 @@ def check(rep, F, tier, replay=None):
         if not ok:
             rep.violation("LENIENT", "write-back", "Address::to_bytes no longer writes a malformed address's bytes back unchanged", {})
     wildarms.check(rep, F, "C11")
+    # Byron attribute map: the decoder accepts the two entries in either order, so byte identity of a round trip rests on the writer
+    # alone: key 1 (derivation payload) before key 2 (protocol magic), the canonical order every existing Byron address uses.
+    from e2_all import Inventory, short_ty
+    rep.rule("BYRON-attr", "the Byron attribute writer emits key 1 = derivation payload and key 2 = protocol magic, in ascending key order, in every presence state (E2 wire table)")
+    inv = Inventory(F)
+    wf = [fid for T, fid in inv.ser.items() if T.endswith("legacy_address::address::Attributes")]
+    if len(wf) != 1:
+        rep.lost("Byron Attributes writer not found")
+    else:
+        r = inv.result(wf[0])
+        if r["status"] != "ok":
+            rep.lost("Byron Attributes writer is not derivable by E2 (%s)" % r.get("why"))
+        else:
+            maps = [c for c in r["containers"] if c["kind"] == "map" and c.get("sid", 0) == 0]
+            seen = set()
+            for c in maps:
+                rep.inst("BYRON-attr")
+                ks = [k for k in c["keys"]]
+                seen |= set(ks)
+                if ks != sorted(ks) or any(not isinstance(k, int) for k in ks):
+                    rep.violation("BYRON-attr", "order|%s" % ks, "Byron attributes are written with keys in the order %s: existing addresses carry them in ascending order, so parse -> to_bytes / Base58 no longer reproduces the input" % ks, {})
+                for k, v in zip(c["keys"], c["vals"]):
+                    if k == 1 and isinstance(v, str) and "derivation_path" not in v:
+                        rep.violation("BYRON-attr", "key1|%s" % v, "Byron attribute key 1 is written from %s, not from the derivation payload" % v, {})
+            if seen != {1, 2}:
+                rep.violation("BYRON-attr", "keys|%s" % sorted(seen), "Byron attribute writer emits keys %s, expected {1, 2}" % sorted(seen), {})
+            rep.floor("presence states of the Byron attribute map", 4, len(maps))
     return rep.finish(
         EXPLANATION,
         ["bech32 / base58 / CRC codecs are dependencies or value-level (not decided)", "the strict parsers never panic: C02"],
